@@ -74,9 +74,89 @@ theorem lv_startsId (c : JCtx) (lv : Expr) (hf : JsOkLv lv = true) : StartsId (t
         exact ⟨"member".toList, .p .lp :: (prJArgs [toJsE c e] ++ [.p .rp, .p .dot, .id ((tblLookupIdx tblVideo k).getD "UNKNOWN".toList)]),
           by simp [toJsE, toJsEs, toJsThe, jcall, prJ, wrapRecv, JE.needsParen], by decide⟩
       | _ => simp [theTbl] at hk
-    | [], hf => simp [JsOkLv] at hf
+    | [], hf =>
+      cases t with
+      | special =>
+        have hk : k < 6 := by simpa [JsOkLv] using hf
+        simp only [toJsE, toJsEs, toJsThe, hk, if_true]
+        exact startsId_mem_jid "_system" _ (by decide)
+      | _ => simp [JsOkLv] at hf
     | _ :: _ :: _, hf => simp [JsOkLv] at hf
   | _ => simp [JsOkLv] at hf
+
+/-- the translation of a `put` target: lexically well formed, in the reader fragment, starting with a non-reserved identifier -/
+theorem tg_ok (c : JCtx) : ∀ (lv : Expr), JsOkTg lv = true →
+    LexOK (putTarget c lv) ∧ JFrag (putTarget c lv) ∧ StartsId (putTarget c lv)
+  | .chunk k a b d, h => by
+    simp only [JsOkTg, Bool.and_eq_true] at h
+    obtain ⟨l1, l2, x, tl, hx, hk⟩ := tg_ok c d h.2
+    have hnp := (tg_head c d h.2).1
+    have la := toJsE_lexok c a h.1.1
+    have lb := toJsE_lexok c b h.1.2
+    have fa := toJsE_fragJ c a h.1.1
+    have fb := toJsE_fragJ c b h.1.2
+    have hkt : jsIdLex k.tag.toList = true := by cases k <;> decide
+    refine ⟨?_, ?_, ?_⟩
+    · simp only [putTarget, jmem, LexOK]
+      refine ⟨⟨l1, hkt⟩, ?_⟩
+      split
+      · exact la
+      · simp only [jcall, LexOK, LexOKL]; exact ⟨by decide, la, lb, trivial⟩
+    · simp only [putTarget, jmem, JFrag]
+      refine ⟨l2, ?_⟩
+      split
+      · exact fa
+      · simp only [jcall, JFrag, JFragL]; exact ⟨by decide, fa, fb, trivial⟩
+    · have hshape : ∃ Y, prJ (putTarget c (.chunk k a b d)) = prJ (putTarget c d) ++ Y := by
+        simp only [putTarget, jmem, prJ, wrapRecv, np_mem, hnp, Bool.false_eq_true, if_false, List.append_assoc]
+        exact ⟨_, rfl⟩
+      obtain ⟨Y, hY⟩ := hshape
+      exact ⟨x, tl ++ Y, by rw [hY, hx]; rfl, hk⟩
+  | .field e, h => by
+    have he : JsOkE e = true := by simpa [JsOkTg] using h
+    refine ⟨?_, ?_, ?_⟩
+    · simp only [putTarget, jmem, jcall, LexOK, LexOKL]; exact ⟨⟨by decide, toJsE_lexok c e he, trivial⟩, by decide⟩
+    · simp only [putTarget, jmem, jcall, JFrag, JFragL]; exact ⟨by decide, toJsE_fragJ c e he, trivial⟩
+    · exact ⟨"field".toList, .p .lp :: (prJArgs [toJsE c e] ++ [.p .rp, .p .dot, .id "text".toList]),
+        by simp [putTarget, jmem, jcall, prJ, wrapRecv, JE.needsParen], by decide⟩
+  | .var .loc n, h => by
+    simp only [JsOkTg, Bool.and_eq_true, bne_iff_ne, ne_eq] at h
+    have hm : ¬ n = "me".toList := h.2
+    have hk : JsOkE (.var .loc n) = true := by simp only [JsOkE, Bool.or_eq_true]; exact Or.inr h.1
+    have e : putTarget c (.var .loc n) = toJsE c (.var .loc n) := rfl
+    rw [e]
+    refine ⟨toJsE_lexok c _ hk, toJsE_fragJ c _ hk, ?_⟩
+    simp only [toJsE, hm, if_false]; exact startsId_id n (jsIdOk_nonkw n h.1)
+  | .var .param n, h => by
+    simp only [JsOkTg, Bool.and_eq_true, bne_iff_ne, ne_eq] at h
+    have hm : ¬ n = "me".toList := h.2
+    have hk : JsOkE (.var .param n) = true := by simp only [JsOkE, Bool.or_eq_true]; exact Or.inr h.1
+    have e : putTarget c (.var .param n) = toJsE c (.var .param n) := rfl
+    rw [e]
+    refine ⟨toJsE_lexok c _ hk, toJsE_fragJ c _ hk, ?_⟩
+    simp only [toJsE, hm, if_false]; exact startsId_id n (jsIdOk_nonkw n h.1)
+  | .var .prop n, h => by
+    have hk : JsOkE (.var .prop n) = true := by simpa [JsOkTg, JsOkE] using h
+    have e : putTarget c (.var .prop n) = toJsE c (.var .prop n) := rfl
+    rw [e]
+    refine ⟨toJsE_lexok c _ hk, toJsE_fragJ c _ hk, ?_⟩
+    simp only [toJsE]; exact startsId_mem_jid "this" n (by decide)
+  | .var .glob _, h => by simp [JsOkTg] at h
+  | .int _, h => by simp [JsOkTg] at h
+  | .float _ _, h => by simp [JsOkTg] at h
+  | .str _, h => by simp [JsOkTg] at h
+  | .sym _, h => by simp [JsOkTg] at h
+  | .me, h => by simp [JsOkTg] at h
+  | .bin _ _ _, h => by simp [JsOkTg] at h
+  | .un _ _, h => by simp [JsOkTg] at h
+  | .call _ _, h => by simp [JsOkTg] at h
+  | .mcall _ _ _, h => by simp [JsOkTg] at h
+  | .list _, h => by simp [JsOkTg] at h
+  | .plist _, h => by simp [JsOkTg] at h
+  | .the _ _ _, h => by simp [JsOkTg] at h
+  | .key _, h => by simp [JsOkTg] at h
+  | .movie _, h => by simp [JsOkTg] at h
+  | .oprop _ _, h => by simp [JsOkTg] at h
 
 theorem toJsS_ok (hs : List Spec.Name) (s : Stmt) (hf : JsOkS s = true) :
     LexOKS (toJsS { handlers := hs, inTell := false } s) ∧ ReadOKS (toJsS { handlers := hs, inTell := false } s) := by
@@ -84,7 +164,7 @@ theorem toJsS_ok (hs : List Spec.Name) (s : Stmt) (hf : JsOkS s = true) :
   | set lv v =>
     simp only [JsOkS, Bool.and_eq_true] at hf
     obtain ⟨_, l1, l2⟩ := lv_ok { handlers := hs, inTell := false } lv hf.1
-    exact ⟨⟨l1, toJsE_lexok _ v hf.2⟩, ⟨l2, lv_startsId _ lv hf.1, toJsE_fragJ _ v hf.2⟩⟩
+    exact ⟨⟨l1, toJsE_lexok _ v hf.2⟩, ⟨l2, lv_startsId _ lv hf.1, Or.inl (toJsE_fragJ _ v hf.2)⟩⟩
   | call f as =>
     by_cases hr : f = "return".toList
     · subst hr
@@ -120,6 +200,29 @@ theorem toJsS_ok (hs : List Spec.Name) (s : Stmt) (hf : JsOkS s = true) :
   | exit =>
     simp only [toJsS, jcall, LexOKS, ReadOKS, LexOK, LexOKL, JFrag, JFragL]
     exact ⟨⟨by decide, trivial⟩, ⟨by decide, trivial⟩, startsId_call_id _ _ (by decide)⟩
+  | put m v lv =>
+    simp only [JsOkS, Bool.and_eq_true] at hf
+    obtain ⟨t1, t2, t3⟩ := tg_ok { handlers := hs, inTell := false } lv hf.2
+    have v1 := toJsE_lexok { handlers := hs, inTell := false } v hf.1
+    have v2 := toJsE_fragJ { handlers := hs, inTell := false } v hf.1
+    cases m with
+    | into => simp only [toJsS, LexOKS, ReadOKS]; exact ⟨⟨t1, v1⟩, ⟨t2, t3, Or.inl v2⟩⟩
+    | after =>
+      simp only [toJsS, LexOKS, ReadOKS, LexOK]
+      exact ⟨⟨t1, by decide, t1, v1⟩, ⟨t2, t3, Or.inr ⟨_, _, rfl, t2, v2⟩⟩⟩
+    | before =>
+      simp only [toJsS, LexOKS, ReadOKS, LexOK]
+      exact ⟨⟨t1, by decide, v1, t1⟩, ⟨t2, t3, Or.inr ⟨_, _, rfl, v2, t2⟩⟩⟩
+  | mcall o m as =>
+    have hk : JsOkE (.mcall o m as) = true := by simpa [JsOkS] using hf
+    have hlex := toJsE_lexok { handlers := hs, inTell := false } (.mcall o m as) hk
+    have hfr := toJsE_fragJ { handlers := hs, inTell := false } (.mcall o m as) hk
+    simp only [JsOkE, Bool.and_eq_true] at hk
+    obtain ⟨x, ⟨hx1, _, _, _⟩, hte, _, _⟩ := recvJsOk_spec { handlers := hs, inTell := false } o m as hk.1.1
+    simp only [toJsS, LexOKS, ReadOKS]
+    refine ⟨hlex, hfr, ?_⟩
+    rw [hte]
+    exact startsId_call_id x _ (jsIdOk_nonkw x hx1)
   | delete t =>
     simp only [JsOkS, Bool.and_eq_true] at hf
     have ht : JsOkE t = true := hf.1
@@ -185,12 +288,24 @@ theorem toJsT_ok (hs : List Spec.Name) : ∀ (s : Stmt), JsOkT s = true →
           · exact ⟨by decide, lv2, lb2⟩
       | _ => simp [JsOkT] at hf
     | _ => simp [JsOkT] at hf
-  | .put .., hf => by simp [JsOkT] at hf
+  | .put m v lv, hf => by simp only [JsOkT] at hf; exact toJsS_ok hs _ hf
   | .delete t, hf => by simp only [JsOkT] at hf; exact toJsS_ok hs _ hf
   | .hilite t, hf => by simp only [JsOkT] at hf; exact toJsS_ok hs _ hf
-  | .mcall .., hf => by simp [JsOkT] at hf
+  | .mcall o m as, hf => by simp only [JsOkT] at hf; exact toJsS_ok hs _ hf
   | .tell .., hf => by simp [JsOkT] at hf
-  | .repeatIn .., hf => by simp [JsOkT] at hf
+  | .repeatIn lv l body, hf => by
+    cases lv with
+    | var k v =>
+      cases k with
+      | loc =>
+        simp only [JsOkT, Bool.and_eq_true] at hf
+        obtain ⟨⟨hv, hl⟩, hbody⟩ := hf
+        have hvk : JsOkE (.var .loc v) = true := by simp only [JsOkE, Bool.or_eq_true]; exact Or.inr hv
+        obtain ⟨b1, b2⟩ := toJsTs_ok hs body hbody
+        simp only [toJsS, LexOKS, ReadOKS]
+        exact ⟨⟨toJsE_lexok _ _ hvk, toJsE_lexok _ l hl, b1⟩, ⟨toJsE_fragJ _ _ hvk, toJsE_fragJ _ l hl, b2⟩⟩
+      | _ => simp [JsOkT] at hf
+    | _ => simp [JsOkT] at hf
   | .exitRepeat, hf => by simp [JsOkT] at hf
 theorem toJsTs_ok (hs : List Spec.Name) : ∀ (ss : List Stmt), JsOkTs ss = true →
     LexOKSs (toJsSs { handlers := hs, inTell := false } ss) ∧ ReadOKSs (toJsSs { handlers := hs, inTell := false } ss)
@@ -346,8 +461,11 @@ theorem toJsS_noVar (c : JCtx) (s : Stmt) (hf : JsOkT s = true) : NoVar (toJsS c
   | ifThen c t e => simp [toJsS, NoVar]
   | repeatWhile c b => simp [toJsS, NoVar]
   | repeatWith v a b d body => simp [toJsS, NoVar]
+  | repeatIn v l body => simp [toJsS, NoVar]
   | delete t => simp [toJsS, NoVar]
   | hilite t => simp [toJsS, NoVar]
+  | put m v lv => cases m <;> simp [toJsS, NoVar]
+  | mcall o m as => simp [toJsS, NoVar]
   | _ => simp [JsOkT] at hf
 
 theorem toJsSs_head_noVar (c : JCtx) (ss : List Stmt) (hf : JsOkTs ss = true) : ∀ s ∈ (toJsSs c ss).head?, NoVar s := by
@@ -595,7 +713,10 @@ theorem stW_le : ∀ (s : JS), ReadOKS s → stW s + 1 ≤ (prS s).length
   | .ret es, h => by have := prS_length _ h; simp only [stW]; omega
   | .var n, h => by have := prS_length _ h; simp only [stW]; omega
   | .brk, h => absurd h (by simp [ReadOKS])
-  | .forOf _ _ _, h => absurd h (by simp [ReadOKS])
+  | .forOf v l b, h => by
+    simp only [ReadOKS] at h
+    have h1 := ssW_le b h.2.2
+    simp only [stW, prS, List.length_cons, List.length_append, List.length_nil]; omega
   | .with _ _, h => absurd h (by simp [ReadOKS])
 theorem ssW_le : ∀ (b : List JS), ReadOKSs b → ssW b ≤ (prBody b).length
   | [], _ => by simp [ssW]
